@@ -147,7 +147,8 @@ def generate(check, rng, tier, run_index):
                 ops.append({'op': 'write', 'k': 0})      # a write call with zero frames (an empty chunk at the end of a loop)
         elif k == 'ragged':
             n_ragged += 1
-            ops.append({'op': 'ragged', 'kind': rng.choice(rag), 'k': rng.randint(1, 2), 'delta': rng.choice([-1, 1])})
+            ops.append({'op': 'ragged', 'kind': rng.choice(rag), 'k': rng.randint(1, 2), 'delta': rng.choice([-1, 1]),
+                        'retry': rng.chance(0.3)})       # the caller tries the very same call once more
         else:
             ops.append({'op': k})
     if not any(o['op'] == 'write' for o in ops):
@@ -158,6 +159,10 @@ def generate(check, rng, tier, run_index):
             'seed': rng.below(1 << 30), 'mode': mode, 'ops': ops}
     if extras is not None:
         case['extras'] = extras
+    if rng.chance(0.2):
+        # the output path is not fresh: an earlier, longer run was saved under the same name (or something else lies there);
+        # writers open with force_overwrite=True by default and must leave nothing of it
+        case['preexisting'] = rng.choice(['longer', 'longer', 'junk'])
     if fmt == 'nc' and rng.chance(0.4):
         case['nc_backend'] = 'scipy'
     alias = {'nc': ['.nc', '.netcdf', '.ncdf'], 'mdcrd': ['.mdcrd', '.crd'], 'h5': ['.h5', '.hdf5'], 'xyz': ['.xyz', '.xyz.gz'], 'pdb': ['.pdb', '.pdb.gz']}
@@ -243,6 +248,26 @@ class Writer(object):
         if self.h is not None:
             self.h.close()
             self.h = None
+
+
+def _preexisting(md, case, path, top, n_atoms, src, with_cell, with_time):
+    """put the earlier content at the writer's path before the writer opens it"""
+    kind = case.get('preexisting')
+    if not kind:
+        return
+    fmt = case['fmt']
+    if kind == 'junk' and fmt != 'dtr':
+        with open(path, 'wb') as f:
+            f.write(b'not a trajectory \x00\x01\x02 ' * 700)
+        return
+    n = len(src['xyz'])
+    w0 = Writer(md, fmt, path, top, n_atoms)
+    try:
+        # other content than the run's own frames (everything shifted by 5 nm) and at least two frames more than the history can write
+        x, t_, l_, a_ = _chunk(src, list(range(n)), with_cell, with_time)
+        w0.write(x + np.float32(5.0), t_, l_, a_)
+    finally:
+        w0.close()
 
 
 def snapshot(path, dest):
@@ -411,6 +436,9 @@ def _execute(check, case, workdir):
         d.update({'format': fmt, 'schema': sig_schema, 'mode': mode})
         res.violate('%s|%s|%s|%s|%s%s' % (check, fmt, opname, kind, sig_schema, extra), stepno, d)
 
+    _preexisting(md, case, path, top, n_atoms, src, with_cell, with_time)
+    if case.get('preexisting'):
+        res.probe('writer_opened_on_existing_' + case['preexisting'])
     w = Writer(md, fmt, path, top, n_atoms)
     accepted = []        # source frame ids accepted so far
     flushed_upto = 0     # frames guaranteed durable (flush returned after them)
@@ -566,6 +594,14 @@ def _execute(check, case, workdir):
                 except Exception as e:
                     refused = True
                     res.log.append('%d ragged(%s) refused with %s' % (stepno, rk, type(e).__name__))
+                if refused and op.get('retry'):
+                    res.fault('ragged_retry')
+                    try:
+                        w.write(x, t_, l_, a_, top=rtop, extras=ex)
+                        refused = False
+                        res.log.append('%d ragged(%s) accepted on the second attempt' % (stepno, rk))
+                    except Exception:
+                        pass
                 cursor += k      # the refused frames are never offered again: they must appear nowhere
                 res.trace.append((fmt, 'ragged', rk, refused))
                 if not refused:
@@ -683,6 +719,7 @@ def _child_history(case, workdir):
         A = np.full_like(A, 90.0)
     src = {'xyz': xyz[:, :n_atoms], 'xyz_plus': xyz, 'time': tm.astype(np.float64), 'L': L, 'A': A}
     top = fmts.make_topology(n_atoms)
+    _preexisting(md, case, os.path.join(workdir, 'out' + case.get('ext', F['ext'])), top, n_atoms, src, with_cell, with_time)
     w = Writer(md, fmt, os.path.join(workdir, 'out' + case.get('ext', F['ext'])), top, n_atoms)
     auto_flush = caps['flush'] and case['mode'] in ('flushed', 'faultfree')
     cursor = 0
